@@ -3,6 +3,10 @@
 //	header:     Q <nodeSize> <eq>  |  S <nodeSize> <eq>  |  SQ <eq>       eq in {eq, m3, le}
 //	ops (Q,S):  E v -> -     D -> v,t|0,f     P -> v,t|0,f     C v -> t|f     N -> size     Z -> t|f
 //	ops (SQ):   E v -> idx   D -> v,idx|0,-1  P -> v,idx       C v -> idx     N -> size     Z -> t|f     V -> v0,v1,..|-
+//	X (all):    representation snapshot through the verif hook (fidelity observable):
+//	            Q: nodeSize,listSize,frontIndex,rearIndex,rearPos;block;block...   (cells separated by blanks,
+//	               rearPos = position of rearNode among the blocks reachable from frontNode, -1 nil, -2 stale)
+//	            S: nodeSize,listSize,topIndex;block;block...        SQ: front,rear,len(list)
 //
 // A panic inside an operation is reported as PANIC and ends the case; a case that does not finish
 // within the deadline is cut with HANG for the operation in flight and the process exits 4.
@@ -77,6 +81,42 @@ func mk(head string) (*inst, error) {
 	return in, nil
 }
 
+func blocks(bs [][]int) string {
+	var sb strings.Builder
+	for _, b := range bs {
+		sb.WriteByte(';')
+		for i, c := range b {
+			if i > 0 {
+				sb.WriteByte(' ')
+			}
+			sb.WriteString(strconv.Itoa(c))
+		}
+	}
+	return sb.String()
+}
+
+func (in *inst) dump() string {
+	switch in.kind {
+	case "Q":
+		st, ok := list.VerifQueueDump[int](in.q)
+		if !ok {
+			return "NOHOOK"
+		}
+		return fmt.Sprintf("%d,%d,%d,%d,%d", st.NodeSize, st.ListSize, st.FrontIndex, st.RearIndex, st.RearPos) + blocks(st.Blocks)
+	case "S":
+		st, ok := list.VerifStackDump[int](in.s)
+		if !ok {
+			return "NOHOOK"
+		}
+		return fmt.Sprintf("%d,%d,%d", st.NodeSize, st.ListSize, st.TopIndex) + blocks(st.Blocks)
+	}
+	f, r, n, ok := list.VerifSoftQueueDump[int](in.sq)
+	if !ok {
+		return "NOHOOK"
+	}
+	return fmt.Sprintf("%d,%d,%d", f, r, n)
+}
+
 func (in *inst) exec(op string) (res string) {
 	defer func() {
 		if r := recover(); r != nil {
@@ -84,6 +124,9 @@ func (in *inst) exec(op string) (res string) {
 		}
 	}()
 	f := strings.Fields(op)
+	if f[0] == "X" {
+		return in.dump()
+	}
 	a := func(i int) int { v, _ := strconv.Atoi(f[i]); return v }
 	vb := func(v int, ok bool) string { return fmt.Sprintf("%d,%s", v, b(ok)) }
 	switch in.kind {
@@ -199,6 +242,7 @@ func battery(kind string, maxv int) []string {
 	if kind == "SQ" {
 		ops = append(ops, "V")
 	}
+	ops = append(ops, "X")
 	return ops
 }
 
@@ -451,11 +495,15 @@ func random(r *rng.R, cases, maxOps int) {
 				if kind == "SQ" && r.Chance(1, 4) {
 					ops = append(ops, "V")
 				}
+			case 5:
+				if ns <= 8 || r.Chance(1, 4) {
+					ops = append(ops, "X")
+				}
 			}
 		}
 		ops = append(ops, battery(kind, 4)...)
 		ops = rep(ops, "D", live+1)
-		ops = append(ops, "N", "Z", "P", "C 0")
+		ops = append(ops, "N", "Z", "P", "C 0", "X")
 		runCase(head, ops)
 	}
 }
